@@ -40,7 +40,7 @@ class TrainSim(Sim):
     PROBES = ["epochs_0", "epochs_3", "validation_loader", "no_validation", "evaluator_none", "evaluator_binary", "evaluator_multi_class",
               "evaluator_categorical", "callback_adversarial_mode_flip", "callback_logging", "real_dataloader", "list_loader", "model_with_batchnorm",
               "model_with_dropout", "second_fit_after_fault", "fault_in_forward", "fault_in_criterion", "fault_in_callback", "fault_in_transform",
-              "test_call", "fit_twice", "adam", "sgd_momentum"]
+              "test_call", "fit_twice", "adam", "sgd_momentum", "optimizer_param_outside_model", "callback_flips_child_layers", "mixed_mode_tree_before_call"]
     RULE = ("one run = one trainer configuration (model layers, loss, optimizer, evaluator mode, loaders, callbacks) and 1-3 fit/test calls, "
             "optionally with an injected fault followed by a fault-free fit; distinct = (epochs, train batches, val batches, evaluator mode, "
             "callbacks, loader kind, model layer kinds, call sequence); non-trivial = at least one optimisation step was checked")
@@ -54,7 +54,8 @@ class TrainSim(Sim):
             "max_events": 6, "np_seed": rng.randrange(2 ** 31), "task": task, "evaluator": rng.random() < 0.75, "d": rng.randint(2, 4), "h": rng.randint(2, 5),
             "c": rng.randint(2, 4), "bn": rng.random() < 0.5, "dropout": rng.choice([None, None, 0.3, 0.5]), "batch": rng.randint(2, 5),
             "n_train": rng.randint(1, 4), "n_val": rng.choice([0, 0, 1, 2, 3]), "remainder": rng.choice([0, 0, 1]), "loader": rng.choice(["real", "list"]),
-            "opt": rng.choice(["SGD", "SGDm", "Adam", "AdamW"]), "callbacks": rng.choice(["none", "none", "log", "adversarial"]),
+            "opt": rng.choice(["SGD", "SGDm", "Adam", "AdamW"]), "callbacks": rng.choice(["none", "none", "log", "adversarial", "adversarial_child"]),
+            "extra_param": rng.random() < 0.3, "tweak_between": rng.random() < 0.3,
             "faulty": rng.random() < 0.3, "acc_cb": rng.random() < 0.3,
         }
 
@@ -69,6 +70,7 @@ class TrainSim(Sim):
         st.n_calls = 0
         st.pending_fault = None
         st.after_fault = False
+        st.n_done = 0
         return st
 
     def _emit(self, st, kind, **kw):
@@ -88,7 +90,7 @@ class TrainSim(Sim):
 
     def _grads(self, st):
         out = []
-        for p in st.model.parameters():
+        for p in st.model.parameters() + ([st.extra] if getattr(st, "extra", None) is not None else []):
             if p.requires_grad:
                 g = p._grad
                 out.append(None if g is None else np.asarray(g, dtype=np.float64).copy())
@@ -109,7 +111,9 @@ class TrainSim(Sim):
                 super().__init__()
 
             def forward(self, x):
-                sim._emit(st, "forward", training=bool(self.training), model_training=bool(st.model.training), grad_mode=sim._grad_mode(st))
+                sim._emit(st, "forward", training=bool(self.training) and all(bool(m.training) for m in st.model.submodules()) and bool(st.model.training),
+                          any_training=bool(self.training) or any(bool(m.training) for m in st.model.submodules()) or bool(st.model.training),
+                          model_training=bool(st.model.training), grad_mode=sim._grad_mode(st))
                 return x
         out_dim = 1 if kn["task"] == "binary" else kn["c"]
         layers = [nn.Linear(kn["d"], kn["h"])]
@@ -133,6 +137,11 @@ class TrainSim(Sim):
         real_loss = {"multi-class": nn.CrossEntropyLoss, "binary": nn.BCELoss, "categorical": nn.MSELoss}[kn["task"]]()
         O = SG.optim
         params = st.model.parameters()
+        st.extra = None
+        if kn.get("extra_param"):
+            st.extra = SG.Tensor(np.array([1.5], dtype=np.float32), requires_grad=True)      # a learnable temperature of the loss
+            params = params + [st.extra]
+            st.probes["optimizer_param_outside_model"] += 1
         if kn["opt"] == "SGD":
             real_opt = O.SGD(params, lr=0.05)
         elif kn["opt"] == "SGDm":
@@ -149,6 +158,8 @@ class TrainSim(Sim):
                     st.faults["F3.criterion_raise"] += 1
                     raise SimBodyError("criterion raised")
                 loss = real_loss(outputs, labels)
+                if st.extra is not None:
+                    loss = loss * st.extra.sum()
                 rec = sim._emit(st, "loss", value=float(np.asarray(loss.data, dtype=np.float64).reshape(-1)[0]), requires_grad=bool(loss.requires_grad),
                                 outputs=np.asarray(outputs.data, dtype=np.float64).copy(), labels=np.asarray(labels.data).copy())
                 if loss.requires_grad:
@@ -202,7 +213,7 @@ class TrainSim(Sim):
         st.test_loader = make(max(1, kn["n_val"]), "test")
         st.probes["real_dataloader" if kn["loader"] == "real" else "list_loader"] += 1
         st.built = True
-        st.sig.append("|".join(str(kn[k]) for k in ("task", "evaluator", "bn", "dropout", "n_train", "n_val", "loader", "opt", "callbacks", "remainder")))
+        st.sig.append("|".join(str(kn.get(k)) for k in ("task", "evaluator", "bn", "dropout", "n_train", "n_val", "loader", "opt", "callbacks", "remainder", "extra_param", "tweak_between")))
 
     def _loader(self, st, X, y, nb, phase):
         SG, kn = st.SG, st.knobs
@@ -264,18 +275,36 @@ class TrainSim(Sim):
                 raise SimBodyError("callback raised")
             if kn["callbacks"] == "adversarial":
                 model.eval()        # F7: a legal collaborator that flips the mode
+            elif kn["callbacks"] == "adversarial_child":
+                for m in model.submodules()[1::2]:
+                    m.eval()        # ... of some layers only: the root flag no longer tells the mode of the tree
 
         def on_val(model, loader):
             sim._emit(st, "cb_val")
             if kn["callbacks"] == "adversarial":
                 model.train()
+            elif kn["callbacks"] == "adversarial_child":
+                for m in model.submodules()[::2]:
+                    m.train()
         if kn["callbacks"] == "none" and not (fault and fault["where"] == "callback"):
             return None, None
-        st.probes["callback_adversarial_mode_flip" if kn["callbacks"] == "adversarial" else "callback_logging"] += 1
+        st.probes["callback_adversarial_mode_flip" if kn["callbacks"].startswith("adversarial") else "callback_logging"] += 1
+        if kn["callbacks"] == "adversarial_child":
+            st.probes["callback_flips_child_layers"] += 1
         return on_train, on_val
+
+    def _tweak(self, st):
+        """between two calls the user leaves the tree in a mixed mode (a child switched by hand)"""
+        if st.knobs.get("tweak_between") and st.n_done >= 1:
+            subs = st.model.submodules()
+            for k, m in enumerate(subs):
+                (m.eval if (k + st.n_done) % 2 else m.train)()
+            st.probes["mixed_mode_tree_before_call"] += 1
 
     def _ev_fit(self, st, ev):
         kn = st.knobs
+        self._tweak(st)
+        st.n_done += 1
         epochs = ev["epochs"]
         fault = ev.get("fault")
         del st.trace[:]
@@ -356,7 +385,7 @@ class TrainSim(Sim):
             if len(fw) != 1:
                 st.fail("C20.one_forward_per_step", f"step #{n + 1}: {len(fw)} training forwards for one batch")
             if not fw[0]["training"]:
-                st.fail("C20.training_mode", f"step #{n + 1} (epoch {n // nb + 1}): the training forward ran with the model in eval mode "
+                st.fail("C20.training_mode", f"step #{n + 1} (epoch {n // nb + 1}): the training forward ran with (part of) the model in eval mode "
                         f"(callbacks={kn['callbacks']})")
             if not fw[0]["grad_mode"]:
                 st.fail("C20.training_mode", f"step #{n + 1}: the training forward ran with gradient tracking disabled")
@@ -366,8 +395,8 @@ class TrainSim(Sim):
         if len(val_fw) != (epochs * nv if nv else 0):
             st.fail("C20.validation_batches", f"{len(val_fw)} validation forwards, expected {epochs * nv}")
         for e in val_fw:
-            if e["training"]:
-                st.fail("C20.validation_mode", f"a validation forward ran with the model in training mode (callbacks={kn['callbacks']})")
+            if e["any_training"]:
+                st.fail("C20.validation_mode", f"a validation forward ran with (part of) the model in training mode (callbacks={kn['callbacks']})")
             if e["grad_mode"]:
                 st.fail("C20.validation_mode", "a validation forward ran with gradient tracking enabled")
         self._check_phase_frozen(st, tr, "val")
@@ -465,6 +494,8 @@ class TrainSim(Sim):
 
     def _ev_test(self, st, ev):
         kn = st.knobs
+        self._tweak(st)
+        st.n_done += 1
         del st.trace[:]
         mode_before = self._grad_mode(st)
         d0 = self._digests(st)
@@ -486,8 +517,8 @@ class TrainSim(Sim):
         if len(fw) != nt:
             st.fail("C20.validation_batches", f"test() ran {len(fw)} forwards over a loader of {nt} batches")
         for e in fw:
-            if e["training"] or e["grad_mode"]:
-                st.fail("C20.validation_mode", f"a test forward ran with training={e['training']} and gradient tracking {'on' if e['grad_mode'] else 'off'}")
+            if e["any_training"] or e["grad_mode"]:
+                st.fail("C20.validation_mode", f"a test forward ran with (part of) the model in training mode = {e['any_training']} and gradient tracking {'on' if e['grad_mode'] else 'off'}")
         if [e for e in tr if e["k"] in ("step", "zero_grad", "backward_start")]:
             st.fail("C20.validation_changes_state", "test() called the optimizer or a backward")
         if len(y_pred) != nt * kn["batch"] or len(y_true) != nt * kn["batch"]:
